@@ -39,6 +39,8 @@ RULE = ("cases: sequences of update(model, scale, indices) on fixed and adaptive
         "(single design explicit), None, duplicates; scale 0-d / (1,) / (m,) / (n,1) / (n,m) and malformed; "
         "intersect_iteratively toggled on the region objects; geometric shapes nested / overlapping / "
         "touching / disjoint / identical / degenerate / thin overlaps (2^-7..2^-12) at offsets 2^10..2^20; "
+        "design counts at chunk boundaries 256/512/1024(/4096) +-1, 1500, 2500 with per-design scales in one call "
+        "(fixed family); two design spaces on one model / two models alternately (fixed family); "
         "objective dimension 1..4; direct region.update calls with covariance (m,m) and (1,m,m) incl. (1,1), "
         "(1,1,1) (fixed family); refinement between updates (adaptive); model data "
         "added between updates; non-trivial = at least two updates of some design or a proper subset "
@@ -473,13 +475,194 @@ def _run_direct(ctx, case):
 GP_CLASSES = ["IndependentExactGPyTorchModel", "CorrelatedExactGPyTorchModel", "GPyTorchModelListExactModel"]
 
 
+def _twin_cases(seed):
+    """Deterministic family (own RNG sub-stream, in every run): two design spaces over overlapping point sets
+    fed by ONE model object, and two model objects feeding the spaces alternately.  An update of one space must
+    leave the other space's regions untouched, and every updated region must be the prediction of the model
+    that was passed to that call."""
+    import random
+
+    rng = random.Random(f"C14-twin:{seed}")
+    for k in range(8):
+        m = [2, 1, 3, 2][k % 4]
+        conf = "ell" if k % 4 == 3 else "rect"
+        nA, nB = rng.randint(2, 6), rng.randint(1, 6)
+        nU = max(nA, nB)
+        tables = []
+        for _ in range(2):
+            means = [[_dy(rng, -32, 32, 2) for _ in range(m)] for _ in range(nU)]
+            sds = [[_dy(rng, 0, 8, 1) for _ in range(m)] for _ in range(nU)]
+            tables.append({"means": means,
+                           "covs": [[[(sd[a] * sd[a] if a == b else 0.0) for b in range(m)] for a in range(m)] for sd in sds]})
+        steps = []
+        for t in range(rng.randint(4, 8)):
+            sp = t % 2 if t < 4 else rng.randrange(2)
+            n = nA if sp == 0 else nB
+            idx = _subset(rng, n, rng.choice(["single", "proper", "all", "none"]))
+            kk = n if idx is None else len(idx)
+            steps.append({"space": sp, "model": (t // 2) % 2 if k % 2 else 0, "idx": idx,
+                          "scale": _scale(rng, m, kk, conf, True)})
+        yield {"kind": "twin", "shape": "twin-one-model" if k % 2 == 0 else "twin-two-models", "conf": conf, "m": m,
+               "nA": nA, "nB": nB, "iterA": conf == "rect" and k % 3 == 0, "iterB": conf == "rect" and k % 3 == 1,
+               "tables": tables, "steps": steps}
+
+
+def _run_twin(ctx, case):
+    from vopy.design_space import FixedPointsDesignSpace
+
+    m, conf = case["m"], case["conf"]
+    nU = max(case["nA"], case["nB"])
+    upts = np.array([[float(i), float((i * 7) % 5)] for i in range(nU)])
+    ctype = "hyperrectangle" if conf == "rect" else "hyperellipsoid"
+    spaces = [FixedPointsDesignSpace(upts[:case["nA"]].copy(), m, ctype), FixedPointsDesignSpace(upts[:case["nB"]].copy(), m, ctype)]
+    if conf == "rect":
+        for sp, flag in zip(spaces, (case["iterA"], case["iterB"])):
+            for r in sp.confidence_regions:
+                r.intersect_iteratively = bool(flag)
+    models = []
+    for tb in case["tables"]:
+        mdl = _Stub().make()
+        mdl.points = upts.copy()
+        mdl.means = np.array(tb["means"], dtype=float).reshape(nU, m)
+        mdl.covs = np.array(tb["covs"], dtype=float).reshape(nU, m, m)
+        models.append(mdl)
+    if any(a is b for a in spaces[0].confidence_regions for b in spaces[1].confidence_regions):
+        ctx.violation("spaces-share-state", "two design spaces hold the same region object", case)
+        return
+    cmp_ = _Cmp(True, Fraction(0))
+    for k, st in enumerate(case["steps"]):
+        ds, other, mdl = spaces[st["space"]], spaces[1 - st["space"]], models[st["model"]]
+        N = len(ds.points)
+        idx_l = list(range(N)) if st["idx"] is None else list(st["idx"])
+        rows = _rows(st["scale"], len(idx_l))
+        before, obefore = _snap(ds, conf), _snap(other, conf)
+        try:
+            ds.update(mdl, _np_scale(st["scale"]), None if st["idx"] is None else list(idx_l))
+        except Exception as e:
+            ctx.violation("update-crash:" + core.exc_key(e) + (":m1" if m == 1 else ""),
+                          f"design_space.update raised {type(e).__name__} on a well-formed call", case, detail={"step": k})
+            return
+        after, oafter = _snap(ds, conf), _snap(other, conf)
+        if not all(_same(x, y) for x, y in zip(obefore, oafter)):
+            ctx.violation("spaces-share-state", "updating one design space changed a region of another design space",
+                          case, detail={"step": k})
+            return
+        for i in range(N):
+            if i not in idx_l:
+                if not _same(before[i], after[i]):
+                    ctx.violation("unlisted-changed", "a design that was not listed was modified", case,
+                                  detail={"step": k, "design": i})
+                    return
+                continue
+            mean_i = [core.frac(x) for x in mdl.means[i]]
+            if conf == "rect":
+                lo, up, it = before[i]
+                cur_lo, cur_up = [core.frac(x) for x in lo], [core.frac(x) for x in up]
+                std = np.sqrt(np.diag(mdl.covs[i]))
+                for p_ in [q for q, j in enumerate(idx_l) if j == i]:
+                    ans = ctx.ask("rect", "0", core.qvec(cur_lo), core.qvec(cur_up), "1" if it else "0",
+                                  core.qvec(mean_i), core.qvec(std), core.qvec(rows[p_])).split(" ")
+                    cur_lo, cur_up = core.parse_qvec(ans[1]), core.parse_qvec(ans[2])
+                if not (cmp_.vec(after[i][0], cur_lo) and cmp_.vec(after[i][1], cur_up)):
+                    ctx.violation("rect-listed-iter" if it else "rect-listed",
+                                  "with two design spaces / two models in play, the updated rectangle is not the "
+                                  "prediction of the model passed to this call, scaled", case,
+                                  detail={"step": k, "design": i, "model": st["model"], "space": st["space"]})
+                    return
+            else:
+                p_ = [q for q, j in enumerate(idx_l) if j == i][-1]
+                c_, s_, a_ = after[i]
+                if not (np.array_equal(c_, mdl.means[i]) and np.array_equal(s_, mdl.covs[i]) and
+                        np.asarray(a_).size == 1 and float(np.asarray(a_).reshape(-1)[0]) == float(rows[p_][0])):
+                    ctx.violation("ell-listed", "with two design spaces / two models in play, the updated ellipsoid is "
+                                  "not (mean, cov, scale) of the model passed to this call", case,
+                                  detail={"step": k, "design": i, "model": st["model"], "space": st["space"]})
+                    return
+        ctx.count("twin_steps")
+    ctx.case_done(case, True)
+
+
+CHUNKS = [256, 512, 1024, 4096]
+
+
+class _Compact:
+    """ctx stand-in that records the compact form of a `large` case instead of its expansion"""
+
+    def __init__(self, ctx, case):
+        self._ctx, self._case = ctx, case
+
+    def __getattr__(self, name):
+        return getattr(self._ctx, name)
+
+    def violation(self, key, what, case, kind="R", detail=None):
+        self._ctx.violation(key, what, self._case, kind=kind, detail=detail)
+
+    def case_done(self, case, nontrivial, canon=None):
+        self._ctx.case_done(self._case, nontrivial, canon=canon)
+
+
+def _large_cases(seed, thorough):
+    """Deterministic family (in every run; cheap with the stub): design counts beyond any plausible internal
+    chunk size — the boundaries 256 / 512 / 1024 (thorough: 4096) +-1, and 1500 / 2500 — updated in ONE call with
+    a per-design 2-D scale whose rows all differ; all designs, a shuffled subset larger than 1024, or None;
+    rectangles and ellipsoids.  The tables are generated from closed formulas at run time (`_expand_large`)."""
+    sizes = [257, 513, 1023, 1025, 1500, 2500] + ([255, 256, 511, 512, 1024, 4095, 4097] if thorough else [])
+    for k, N in enumerate(sizes):
+        for conf in (("rect", "ell") if N in (1025, 2500) else ("rect",)):
+            which = ["all-shuffled", "none", "subset"][k % 3] if N > 1100 else ["none", "all-shuffled"][k % 2]
+            yield {"kind": "fixed", "model": {"kind": "stub"}, "conf": conf, "m": 2 if conf == "rect" else 1 + k % 2,
+                   "exact": True, "shape": "stub-large", "large": {"N": N, "which": which, "seed": seed,
+                                                                  "cols": "m" if (conf == "rect" and k % 2) else "1"}}
+
+
+def _expand_large(case):
+    """points / ops of a `large` case (closed formulas; the shuffle uses its own RNG)"""
+    import random
+
+    L, m = case["large"], case["m"]
+    N = L["N"]
+    rng = random.Random(f"C14-large:{L['seed']}:{N}:{case['conf']}")
+    pts = [[float(i), float((i * 7) % 5)] for i in range(N)]
+    means = [[((i * 7 + j * 3) % 64) / 4.0 - 8.0 for j in range(m)] for i in range(N)]
+    covs = [[[(((i + j) % 7 + 1) / 2.0) ** 2 if a == j else 0.0 for a in range(m)] for j in range(m)] for i in range(N)]
+    if L["which"] == "none":
+        idx, k = None, N
+    else:
+        idx = list(range(N))
+        rng.shuffle(idx)
+        if L["which"] == "subset":
+            idx = idx[:max(1030, (3 * N) // 5)]
+        k = len(idx)
+    cols = m if L["cols"] == "m" else 1
+    sc = {"form": "mat", "val": [[((p_ % 37) + 1) / 4.0 + c * ((p_ % 41) / 8.0) for c in range(cols)] for p_ in range(k)]}
+    ops = []
+    if case["conf"] == "rect":
+        ops.append({"op": "iter", "b": True, "idx": list(range(0, N, 3))})
+        ops.append({"op": "update", "scale": {"form": "scalar", "val": 2.0}, "idx": None, "means": means, "covs": covs,
+                    "geo": None})
+    ops.append({"op": "update", "scale": sc, "idx": idx, "means": [[v + 0.5 for v in r] for r in means], "covs": covs,
+                "geo": None})
+    out = dict(case)
+    out.update({"points": pts, "ops": ops})
+    return out
+
+
 def gen(ctx):
     rng = ctx.rng
     plan = ["stub-exact", "stub-geo", "stub-generic", "empirical", "gp-fixed", "gp-adaptive", "stub-adaptive",
             "stub-exact", "gp-fixed", "stub-geo"]
     if ctx.worker == 0:
         yield from _direct_cases(ctx.seed)
+        yield from _large_cases(ctx.seed, ctx.tier == "thorough")
+        yield from _twin_cases(ctx.seed)
     for k in range(ctx.n(300, 10000)):
+        if ctx.tier == "thorough" and k % 97 == 96:      # a drawn design count at a chunk boundary +-1
+            N = rng.choice(CHUNKS[:3]) + rng.choice([-1, 0, 1, 2])
+            yield {"kind": "fixed", "model": {"kind": "stub"}, "conf": rng.choice(["rect", "ell"]), "m": 2,
+                   "exact": True, "shape": "stub-large",
+                   "large": {"N": N, "which": rng.choice(["none", "all-shuffled"]), "seed": rng.randrange(10 ** 6),
+                             "cols": "1"}}
+            continue
         shape = plan[k % len(plan)]
         if shape == "stub-exact":
             yield _case_stub(rng, True)
@@ -576,7 +759,15 @@ def run_case(ctx, case):
     if case["kind"] == "direct":
         _run_direct(ctx, case)
         return
+    if case["kind"] == "twin":
+        _run_twin(ctx, case)
+        return
     ctx.count("m_%d" % case["m"])
+    report_case = case
+    if "large" in case:
+        ctx.count("large_N_%d" % case["large"]["N"])
+        case = _expand_large(case)
+        ctx = _Compact(ctx, report_case)        # violations / bookkeeping record the compact case (replayable)
     m, conf, mk = case["m"], case["conf"], case["model"]["kind"]
     exact = bool(case.get("exact"))
     cmp_ = _Cmp(exact, Fraction(1, 10 ** 9) if mk == "gp" else Fraction(1, 10 ** 12))
@@ -655,6 +846,7 @@ def run_case(ctx, case):
                     return
         idx = op["idx"]
         idx_l = list(range(N)) if idx is None else [i % N for i in idx]
+        idx_set = set(idx_l)
         sc = op["scale"]
         rows = _rows(sc, len(idx_l))
         valid = rows is not None and all(len(r) == 1 or (conf == "rect" and len(r) == m) for r in rows)
@@ -750,18 +942,21 @@ def run_case(ctx, case):
             continue            # malformed call: status and (partial) state are compared with the model below
         # ---- (R) unlisted designs untouched, bit for bit
         for i in range(N):
-            if i not in idx_l and not _same(before[i], after[i]):
+            if i not in idx_set and not _same(before[i], after[i]):
                 ctx.violation("unlisted-changed", "a design that was not listed was modified", case,
                               detail={"op": k, "design": i, "indices": idx_l})
                 return
         if len(idx_l) < N:
             proper = True
         # ---- (R) listed designs: what Rect.update / the ellipsoid rule make of the previous region
-        for i in sorted(set(idx_l)):
+        positions = {}
+        for p_, j_ in enumerate(idx_l):
+            positions.setdefault(j_, []).append(p_)
+        for i in sorted(idx_set):
             upd_count[i] = upd_count.get(i, 0) + 1
             if upd_count[i] >= 2:
                 touched_twice = True
-            occ = [p for p, j in enumerate(idx_l) if j == i]
+            occ = positions[i]
             mean_i = [core.frac(x) for x in mu_full[i]]
             if conf == "rect":
                 lo, up, it = before[i]
